@@ -501,6 +501,9 @@ func (rn *runner) run(h Hist, byName map[string]opDef) {
 		if pt.Phase == "torn" {
 			p.Add("torn_cases", 1)
 		}
+		if match != b || pt.Phase == "torn" {
+			p.Add("nontrivial_cases", 1) // counted once per crash point
+		}
 	}
 }
 
@@ -600,8 +603,8 @@ func main() {
 	r.Finish(vr.Coverage{
 		Level:       "fault_enumeration",
 		Evaluations: total.Counters["points"],
-		Distinct:    total.Counters["torn_cases"] + total.Counters["rolled_back_cases"],
-		Rule:        "every sequence over the edit alphabet (9 edit kinds with boundary values, flush/compaction-style batches, clean reopen; a file id is only added while not live) x rewrite thresholds {off,1,80}; every vfs crash point incl. torn writes (1,len/2,len-1; 0 for CURRENT.tmp) recovered with manifest.Verify+Open; reloaded state must equal the state after a prefix of the individual edits between 'all returned calls' and 'the running call'; after each returned call exactly the in-memory state; then one more edit + reload. Recoveries of byte-identical images are shared. distinct_nontrivial = torn-write images + images that legally rolled back to before the running call",
+		Distinct:    total.Counters["nontrivial_cases"],
+		Rule:        "every sequence over the edit alphabet (9 edit kinds with boundary values, flush/compaction-style batches, clean reopen; a file id is only added while not live) x rewrite thresholds {off,1,80}; every vfs crash point incl. torn writes (every byte of frames <=48 bytes, otherwise 1-6,8,len/2,len-8,len-5..len-1) recovered with manifest.Verify+Open; reloaded state must equal the state after a prefix of the individual edits between 'all returned calls' and 'the running call'; after each returned call exactly the in-memory state; then one more edit + reload. Recoveries of byte-identical images are shared. distinct_nontrivial = crash points that are a torn write or whose recovery legally rolled back to before the running call (each point counted once)",
 		Samples:     total.SamplesAny(),
 		Exhaustive:  !total.TimedOut,
 		Outcomes:    out,
